@@ -247,6 +247,8 @@ def run_case(case, ctx, st):
         params["batch_size"] = [1, 2, -(-n // 3), n, None, n + 3][int(rng.integers(0, 6))]
     if name in gen.SPARSE:
         params["alpha"] = float([0.0, 1e-3, 1e-2, 0.1][int(rng.integers(0, 4))])
+    if name == "Douglas" and rng.random() < 0.35:
+        params["temperature"] = float(10 ** rng.uniform(-3, -1.5))     # saturated soft bins (memberships exactly 0)
     y = gen.precomputed_for(rng, pre, n)
     est = gen.build_estimator(name, params)
     # decoration
